@@ -1608,10 +1608,15 @@ func (e *Entry) dup() *Entry {
 		}
 	}
 
+	// Extra and Exts are appended to when the copy is merged below a uses
+	// statement that has substatements of its own: the slices must not share
+	// their arrays with the grouping's entry and, through it, with the copies
+	// made for other uses statements.
 	ne.Extra = make(map[string][]interface{})
 	for k, v := range e.Extra {
-		ne.Extra[k] = v
+		ne.Extra[k] = append([]interface{}(nil), v...)
 	}
+	ne.Exts = append([]*Statement(nil), e.Exts...)
 
 	// Default is a slice: give the copy its own, or a default appended to
 	// one copy (deviate add on a leaf-list) lands in the array it shares
